@@ -126,11 +126,14 @@ def run_check(prop, tier, seed, replay=None, out=sys.stdout):
                     outp = os.path.join(scratch, f"shard{sh}.out")
                     logp = os.path.join(scratch, f"shard{sh}.log")
                     attempts = 0
-                    while attempts < 6:
+                    while attempts < 12:
                         attempts += 1
                         rc = _run_shard([prop, "run", tier, str(seed), str(sh), str(nshards)], outp, logp, budget)
                         if rc == 0:
                             break
+                        if rc == 17:
+                            # per-case watchdog fired: the worker recorded the culprit itself
+                            continue
                         # worker died / timed out: the case after the last completed one is the
                         # culprit; it is recorded inconclusive and skipped on the re-run
                         done = 0
@@ -177,6 +180,7 @@ def conclude(prop, tier, seed, mon, results, findings, infra, t0, out, write_evi
     known_hit, new_viol = {}, []
     samples = []
     inconc_reasons = {}
+    inconc_cids = []
     for r in results:
         verdicts[r["verdict"]] = verdicts.get(r["verdict"], 0) + 1
         st = r.get("stats", {})
@@ -198,6 +202,8 @@ def conclude(prop, tier, seed, mon, results, findings, infra, t0, out, write_evi
             fm["inconclusive"] += 1
             rs_ = r.get("reason", "?")[:60]
             inconc_reasons[rs_] = inconc_reasons.get(rs_, 0) + 1
+            if len(inconc_cids) < 10:
+                inconc_cids.append(r.get("cid"))
         if r["verdict"] == "violated":
             fm["violated"] += 1
             unknown = []
@@ -269,6 +275,7 @@ def conclude(prop, tier, seed, mon, results, findings, infra, t0, out, write_evi
             "families": families,
             "monitor_counters": counters,
             "inconclusive_reasons": inconc_reasons,
+            "inconclusive_cases": inconc_cids,
             "infra_failures": infra[:5],
             "known_findings_hit": known_hit,
             "unlisted_violations": len(new_viol),
